@@ -1,4 +1,6 @@
 import MgpuModel.Util
+import MgpuModel.C12_Wake
+import MgpuModel.C12_K
 /-!
 # C12 — command queues are FIFO and waiting on them terminates
 
@@ -379,6 +381,14 @@ def handle (line : String) : String :=
       match (kv? t "rounds").bind (natList? ·) with
       | some rounds => joinWith " " (runTrace (init rounds) (rest.flatMap words) [])
       | none => "bad"
+    | "c12" :: "ksched" :: _ =>
+      match (kv? t "rounds").bind (natList? ·) with
+      | some rounds => joinWith " " (K.runTrace1 (K.init [K.script1 rounds] 1) (rest.flatMap words) [])
+      | none => "bad"
+    | "c12" :: "wake" :: _ =>
+      match kvNat? t "nq", (rest.flatMap words).mapM W.Drv.parseOp with
+      | some nq, some ops => W.Drv.handleWake nq ((kv? t "fresh") == some "true") ops
+      | _, _ => "bad"
     | "c12" :: "q" :: _ =>
       match kvNat? t "n" with
       | some n =>
